@@ -91,6 +91,19 @@ CLAIMED["C17"] = (
     "before/after oracle still sees their net effect). Thread races outside the property.",
     "Lean 4 invariant proof over event traces + trace-inclusion correspondence + before/after oracle", "DESIGN.md §6 C17")
 
+CLAIMED["C18"] = (
+    "Lean 4 theorems over the rationals: the grid along each axis starts at the lower limit, advances by the step, its last node has "
+    "reached the upper limit and the one before has not (from ceil bounds, any positive step); with centring and unit step the nodes are "
+    "exactly the integers m with lo-1/2 < m < hi+1/2 (pixels overlapping the box, x.5 going to the pixel inside); axes come out in "
+    "(x, y, ...) order with per-axis steps, scalar steps broadcast, wrong-length steps refused; the footprint for axis_type='all' is the "
+    "forward image of the corners of the chosen box (passed box wins, own box otherwise, none -> refused), clockwise from lower-left for "
+    "an all-spatial output and the full product (2^n corners, each coordinate a limit of its axis, first axis slowest) otherwise, corners "
+    "moved to pixel centres first when centring. Tied to gwcs by exact correspondence on dyadic inputs and an independent oracle; two "
+    "defects found and fixed (D22, D23).",
+    "Trusted: Lean kernel; standard axioms; harness; np.mgrid length rule (modelled). Doubles-vs-rationals divergence of arange lengths for "
+    "non-dyadic steps is named, not compared.",
+    "Lean 4 proof over rational model + exact differential correspondence", "DESIGN.md §6 C18")
+
 NOT_YET = "check not built yet in this round; will be claimed once its Lean model, theorems and correspondence run green"
 
 
